@@ -30,6 +30,16 @@ func (p *Prog) FuncObj(rel, name string) *types.Func {
 	return funcObjIn(pk, name)
 }
 
+// FuncObjOpt is FuncObj that answers nil instead of giving up when the function does not exist.
+func (p *Prog) FuncObjOpt(rel, name string) (f *types.Func) {
+	defer func() {
+		if recover() != nil {
+			f = nil
+		}
+	}()
+	return p.FuncObj(rel, name)
+}
+
 func funcObjIn(pk *packages.Package, name string) *types.Func {
 	if i := strings.Index(name, "."); i >= 0 {
 		tn, mn := name[:i], name[i+1:]
